@@ -1,42 +1,46 @@
 #!/usr/bin/env python3
-"""Regenerate the round-3 table of DESIGN.md section 6 from seeded/*-r3-*/meta.json, tools/round3_first_run.txt
-(first run, checks as they stood after round 2) and tools/matrix_last.txt (latest full matrix)."""
+"""Regenerate the round-3 and round-4 tables of DESIGN.md section 6 from seeded/*-r<n>-*/meta.json,
+tools/round<n>_first_run.txt (first run of the round) and tools/matrix_last.txt (latest full matrix; for round 4 also
+tools/round4_second_run.txt, the re-run of the first-run misses)."""
 import json, glob, os, re
-first = {}
-cur = None
-for l in open('/verif/tools/round3_first_run.txt'):
-    l = l.rstrip('\n')
-    m = re.match(r'== (C\d\d)/(\d)', l)
-    if m:
-        cur = f'{m.group(1)}-r3-{m.group(2)}'
-    elif cur and ('CAUGHT' in l or 'MISSED' in l):
-        first[cur] = 'caught' if 'CAUGHT' in l else 'missed'
-now = {}
-cur = None
-for l in open('/verif/tools/matrix_last.txt'):
-    m = re.match(r'== seeded/(\S+)', l)
-    if m:
-        cur = m.group(1)
-    elif l.startswith('== '):
-        cur = None
-    elif cur and ('CAUGHT' in l or 'MISSED' in l):
-        now[cur] = 'caught' if 'CAUGHT' in l else 'missed'
-# changes that are violations of another property than the one they were written for (see the text of section 6)
-CROSS = {
- 'C12-r3-1': 'caught by C13 and by C12 since the loader/CLI graphs got double back-references',
- 'C20-r3-2': 'caught by C13 (loader route) and C20',
-}
+
+def parse(path, rnd):
+    res, cur = {}, None
+    if not os.path.exists(path):
+        return res
+    for l in open(path):
+        l = l.rstrip('\n')
+        m = re.match(r'== (?:seeded/)?(C\d\d)[-/](?:r\d-)?(\d)$', l) or re.match(r'== (?:seeded/)?(C\d\d)-r(\d)-(\d)$', l)
+        if l.startswith('== '):
+            cur = None
+            m1 = re.match(r'== (C\d\d)/(\d)$', l)
+            m2 = re.match(r'== (?:seeded/)?(C\d\d-r\d-\d)$', l)
+            m3 = re.match(r'== (?:seeded/)?(C\d\d-\d)$', l)
+            if m1: cur = f'{m1.group(1)}-r{rnd}-{m1.group(2)}'
+            elif m2: cur = m2.group(1)
+            elif m3: cur = m3.group(1)
+        elif cur and ('CAUGHT' in l or 'MISSED' in l):
+            res[cur] = 'caught' if 'CAUGHT' in l else 'missed'
+    return res
+
 def esc(s): return s.replace('|', '\\|').replace('\n', ' ')
-rows = ['| id | seeded change (sub-agent\'s summary) | needs to manifest | first run | now |', '|---|---|---|---|---|']
-for d in sorted(glob.glob('/verif/seeded/*-r3-*')):
-    m = json.load(open(os.path.join(d, 'meta.json')))
-    i = m['id']
-    n = now.get(i, '?')
-    rows.append(f"| {i} | {esc(m['what_it_changes'][:230])} | {esc(m['needs_to_manifest'][:200])} | {first.get(i,'?')} | {n} |")
+
+now = parse('/verif/tools/matrix_last.txt', 0)
 p = '/verif/DESIGN.md'
 s = open(p).read()
-b, e = '<!-- round3-table-begin -->\n', '<!-- round3-table-end -->'
-i, j = s.index(b) + len(b), s.index(e)
-s = s[:i] + '\n'.join(rows) + '\n' + s[j:]
+for rnd in (3, 4):
+    first = parse(f'/verif/tools/round{rnd}_first_run.txt', rnd)
+    second = parse(f'/verif/tools/round{rnd}_second_run.txt', rnd)
+    rows = ['| id | seeded change (sub-agent\'s summary) | needs to manifest | first run | now |', '|---|---|---|---|---|']
+    for d in sorted(glob.glob(f'/verif/seeded/*-r{rnd}-*')):
+        m = json.load(open(os.path.join(d, 'meta.json')))
+        i = m['id']
+        n = now.get(i) or second.get(i) or ('caught' if first.get(i) == 'caught' else '?')
+        rows.append(f"| {i} | {esc(m['what_it_changes'][:230])} | {esc(m['needs_to_manifest'][:200])} | {first.get(i,'?')} | {n} |")
+    b, e = f'<!-- round{rnd}-table-begin -->\n', f'<!-- round{rnd}-table-end -->'
+    if b not in s:
+        continue
+    i, j = s.index(b) + len(b), s.index(e)
+    s = s[:i] + '\n'.join(rows) + '\n' + s[j:]
+    print('round', rnd, len(rows) - 2, 'rows; first-run caught', sum(1 for v in first.values() if v == 'caught'))
 open(p, 'w').write(s)
-print(len(rows) - 2, 'rows; first-run caught', sum(1 for v in first.values() if v == 'caught'), 'now caught', sum(1 for k, v in now.items() if '-r3-' in k and v == 'caught'))
